@@ -115,7 +115,8 @@ def case_values(col, p):
 
 def _mask_patterns(shape):
     n = int(np.prod(shape))
-    pats = [('none', np.zeros(shape, bool)), ('all', np.ones(shape, bool))]
+    # 'compressed': no entry masked and the mask held in numpy's compressed form (the scalar nomask), as after shrink_mask()
+    pats = [('none', np.zeros(shape, bool)), ('compressed', np.zeros(shape, bool)), ('all', np.ones(shape, bool))]
     c = np.zeros(shape, bool); c.flat[0] = c.flat[-1] = True
     pats.append(('corners', c))
     for i in range(n):
@@ -174,6 +175,8 @@ def case_format(col, p):
             fs = dadi.Spectrum(data.copy(), mask=mask.copy(), mask_corners=False, pop_ids=list(labels) if labels else None)
             if folded:
                 fs = fs.fold()
+            if mname == 'compressed':
+                fs.shrink_mask()
             src_d, src_m = np.asarray(fs.data).copy(), np.ma.getmaskarray(fs).copy()
             info = dict(p, mask=mname, labels=lab, comments=com, foldmaskinfo=fmi, mask_corners=mc)
             try:
